@@ -8,6 +8,8 @@ package main
 // (assets Zeno will fetch) and the outlink items (what Zeno will queue).
 
 import (
+	"bytes"
+	"compress/gzip"
 	"fmt"
 	"github.com/internetarchive/Zeno/internal/pkg/postprocessor/domainscrawl"
 	"io"
@@ -40,7 +42,10 @@ type response struct {
 	Body   string
 	DC     bool // --domains-crawl with the planted hosts as domains
 	DAC    bool // --disable-assets-capture
-	Direct bool // skip archiver.ProcessBody: attach the sniffed MIME type and the spooled body directly (what Zeno's unit tests do)
+	// GzipLen: the response as Zeno's client presents a gzip-compressed delivery with a Content-Length: body
+	// decompressed, Content-Encoding: gzip, ContentLength = size of the compressed bytes
+	GzipLen bool
+	Direct  bool // skip archiver.ProcessBody: attach the sniffed MIME type and the spooled body directly (what Zeno's unit tests do)
 }
 
 type result struct {
@@ -81,7 +86,17 @@ func fetch(rawURL string, hops, maxHops int, r response) (res result) {
 	for k, v := range r.Header {
 		h.Set(k, v)
 	}
-	u.SetResponse(&http.Response{StatusCode: 200, Header: h, Body: io.NopCloser(strings.NewReader(r.Body)), Request: req})
+	resp := &http.Response{StatusCode: 200, Header: h, Body: io.NopCloser(strings.NewReader(r.Body)), Request: req}
+	if r.GzipLen {
+		var zb bytes.Buffer
+		zw := gzip.NewWriter(&zb)
+		zw.Write([]byte(r.Body))
+		zw.Close()
+		h.Set("Content-Encoding", "gzip")
+		h.Set("Content-Length", fmt.Sprint(zb.Len()))
+		resp.ContentLength = int64(zb.Len())
+	}
+	u.SetResponse(resp)
 	if r.Direct {
 		u.SetMIMEType(mimetype.Detect([]byte(r.Body[:min(len(r.Body), 2048)])))
 		sp := spooledtempfile.NewSpooledTempFile("c19", tmpDir, 2097152, false, -1)
